@@ -116,6 +116,12 @@ func roundTripCase(r *report, w *world, c *fileCase, idx int, claimDomain bool) 
 	}
 	if m["dom"] == "1" {
 		r.hist("in_domain")
+		// inside the domain of the stream theorem C06_roundtrip, or on one of the decoder's time-rule paths (C12)
+		if m["ntq"] == "1" {
+			r.hist("in_domain_theorem_covers")
+		} else {
+			r.hist("in_domain_time_quirk_path")
+		}
 	} else {
 		r.hist("outside_domain")
 	}
